@@ -65,6 +65,8 @@ func implC19(line string) string {
 		return implTrace(limit, unhx(f[2]), unhx(strings.SplitN(f[3], "/", 2)[0]))
 	case "emsg":
 		return implEmsg(f[1:])
+	case "sidefx":
+		return implSideFx(f[1], f[2])
 	case "life":
 		limit, _ := strconv.Atoi(f[2])
 		return implLife(f[1], limit, unhx(f[3]), (len(f)-4)/2)
@@ -491,6 +493,37 @@ func implUThrow(via, kind, txt string) string {
 	return "S:" + sTok(err.Error())
 }
 
+var sidefxSites = map[string]string{
+	"callResult": "(function(){ return o; })()()", "newResult": "new ((function(){ return o; })())",
+	"forEach": "[1].forEach(o)", "map": "[1].map(o)", "filter": "[1].filter(o)", "some": "[1].some(o)", "every": "[1].every(o)",
+	"reduce": "[1, 2].reduce(o)", "reduceRight": "[1, 2].reduceRight(o)", "sort": "[2, 1].sort(o)",
+	"fnCall": "Function.prototype.call.call(o)", "fnApply": "Function.prototype.apply.call(o)", "fnBind": "Function.prototype.bind.call(o)",
+	"objToLocale": "Object.prototype.toLocaleString.call({toString: o})", "arrToLocale": "[{toLocaleString: o}].toLocaleString()",
+	"dateToJSON": "Date.prototype.toJSON.call({toISOString: o})", "definePropGetter": "Object.defineProperty({}, 'x', {get: o})",
+	"identCallee": "o()", "memberCallee": "({m: o}).m()",
+}
+
+// implSideFx: a TypeError-raising site gets an offending object whose toString / valueOf log (and, mode throw,
+// throw): the class of the error that comes out and the log of script calls made meanwhile.
+func implSideFx(site, mode string) string {
+	body, ok := sidefxSites[site]
+	if !ok {
+		return "bad-op"
+	}
+	tail := "return 'x';"
+	tailV := "return 1;"
+	if mode == "throw" {
+		tail, tailV = "throw 42;", "throw 43;"
+	}
+	src := "var L = [], o = {toString: function(){ L.push('ts'); " + tail + " }, valueOf: function(){ L.push('vo'); " + tailV + " }}; var r9 = 'no-throw';" +
+		" try { " + body + " } catch (e) { r9 = (e instanceof Error) ? e.name : 'thrown:' + String(e); } r9 + '|' + (L.length ? L.join() : '-')"
+	v, err := otto.New().Run(src)
+	if err != nil {
+		return "run-error:" + hx(err.Error())
+	}
+	return v.String()
+}
+
 // implCLimit: trace limit tl ("d" = leave the default), stack-depth limit sl (0 = leave unset) configured on a fresh
 // runtime, n x Copy(), then an error below d nested calls on the last copy: frames in Error.String() and in e.stack.
 func implCLimit(tl, sl string, n, d int) string {
@@ -546,11 +579,12 @@ var clsConstructs = map[string][]string{
 	"instanceofNonObj": {"1 instanceof 2", "({}) instanceof 'x'", "1 instanceof null", "({}) instanceof undefined", "({}) instanceof true"},
 	"inNonObj":         {"'a' in 1", "'a' in 'b'", "1 in null", "1 in undefined", "'a' in true"},
 	"cyclicJSON":       {"var a = {}; a.a = a; JSON.stringify(a)", "var a = []; a[0] = a; JSON.stringify(a)", "var a = {b:{}}; a.b.c = a; JSON.stringify(a)", "var a = {}; a.a = [a]; JSON.stringify([1, a])"},
+	"frozenWrite":      {"Object.freeze([1]).push(2)", "Object.freeze([1]).pop()", "Object.freeze([1, 2]).shift()", "Object.freeze([1]).unshift(0)", "Object.preventExtensions([]).push(1)", "Object.freeze([2, 1]).reverse()"},
 	"uriMalformed":     {"decodeURIComponent('%')", "decodeURI('%E0%A4%A')", "decodeURIComponent('%C0%80')"},
 }
 
 var clsKinds = []string{"unresolvable", "callNonFn", "newNonFn", "memberUndefined", "memberNull", "arrayLenCtor", "arrayLenSet", "radix",
-	"fixedPrecision", "expPrecision", "precPrecision", "evalSyntax", "functionSyntax", "instanceofNonObj", "inNonObj", "cyclicJSON", "uriMalformed"}
+	"fixedPrecision", "expPrecision", "precPrecision", "evalSyntax", "functionSyntax", "instanceofNonObj", "inNonObj", "cyclicJSON", "uriMalformed", "frozenWrite"}
 
 // wrappers: where the construct runs (the class must not depend on it either)
 var clsWrap = []string{
